@@ -739,6 +739,12 @@ class ModuleVistor(NodeVisitor):
         else:
             obj = self.system.objForFullName(full_name)
             if obj is None:
+                # The object might have been moved (re-exported) already.
+                try:
+                    obj = self.system.find_object(full_name)
+                except LookupError:
+                    obj = None
+            if obj is None:
                 warn("Unable to figure out target for __doc__ assignment: "
                      "computed full name not found: " + full_name)
 
